@@ -110,6 +110,7 @@ struct ExplicitPolicy : Scheduler::Policy {  // follow the list exactly; on a no
 void run_pcq(const PcqConfig &cfg, Scheduler::Policy &policy, RunResult &res) {
   int P = cfg.items.size(), C = cfg.counts.size();
   Scheduler &S = Scheduler::Get();
+  g_deadline_ms = now_ms() + 30000;   // per run (a DFS case performs many runs)
   S.Reset(P + C);
   res.got.assign(C, std::vector<int>());
   g_cur = &res;
@@ -429,7 +430,7 @@ int main() {
     std::istringstream in(line); std::string kind; in >> kind;
     std::string res;
     {
-      Deadline d(kind == "PCQ" ? 120 : 30);
+      Deadline d(kind == "PCQ" ? 60 : 30);
       try {
         if (kind == "PCQ") res = do_pcq(in);
         else if (kind == "CHAIN") res = do_chain(in);
